@@ -510,7 +510,7 @@ class Generator(object):
 def rule(ctx):
     repo = ctx.repo
     sc = get_schema(repo)
-    r = ctx.rule('C05-SENTENTIAL', 'every text a generator can emit derives from the grammar symbol of its construct', floor=150,
+    r = ctx.rule('C05-SENTENTIAL', 'every text a generator can emit derives from the grammar symbol of its construct', floor=40,
                  oracle='OAL grammar extracted from oal.py (Earley recogniser on sentential forms); creation profiles from prebuild.py')
     gen = Generator(repo)
     created = set(gen.profiles.sites)
